@@ -11,6 +11,8 @@ in a harness subclass (the context manager reaches `task_done` through `item_pro
 The unfinished counter is never read: the harness counts puts and successful `task_done` calls itself."""
 import asyncio
 import collections
+import sys
+import warnings
 
 from .steploop import StepLoop
 
@@ -272,7 +274,7 @@ def gen_ops(rng, profile, maxlen):
         elif c < 0.56:
             ops.append(f"cancel {cid()}")
         elif c < 0.72:
-            ops.append(f"gate {cid()} {'ok' if rng.random() < 0.7 else 'exc'}")
+            ops.append(f"gate {cid()} {'ok' if rng.random() < 0.55 else 'exc'}")
         else:
             for _ in range(rng.randint(1, 4)):
                 ops.append(f"run {rng.randint(1, 3)}" if rng.random() < nonfifo else "run")
@@ -281,6 +283,9 @@ def gen_ops(rng, profile, maxlen):
 
 def execute(ops, winddown=True):
     """run op lines on the real queue; returns dict(lines, obs, fails, stats)"""
+    # a (mutated) library may leave coroutines behind that die noisily when collected: not an observation
+    sys.unraisablehook = lambda *a: None
+    warnings.simplefilter("ignore")
     I = Impl()
     mon = Monitors(I)
     lines, obs = [], []
@@ -308,7 +313,7 @@ def execute(ops, winddown=True):
                     drained = I.loop.nready() == 0
                     break
                 for c in pend:
-                    one(f"gate {c} ok")
+                    one(f"gate {c} {'ok' if c % 2 == 0 else 'exc'}")
         mon.at_end(len(lines) - 1, drained)
         for c, p in enumerate(I.phases()):
             if c in I.took:
